@@ -20,25 +20,30 @@ VERIF = os.path.dirname(os.path.dirname(os.path.abspath(__file__)))
 
 def confirm(scratch, ovs, target_dir, h, result, mine, logdir):
     out = {"ran": False, "reproduced": False, "note": ""}
-    tests, plog = kani.playback_print(ovs[h["flavour"]], target_dir, h, logdir, h.get("timeout_thorough", 3600), h.get("mem", 12))
+    tests, plog = kani.playback_print(ovs[h["flavour"]], target_dir, h, logdir, h.get("timeout_thorough", 3600), 40,
+                                      prop=mine[0]["name"])
     if not tests:
         out["note"] = "Kani produced no concrete playback test (see %s)" % plog
         return out
     test_src = tests[0]
     m = re.search(r"fn (kani_concrete_playback_\w+)", test_src)
     tname = m.group(1)
+    # the generated test names the harness by its last path segment; qualify it
+    last = h["fn"].split("::")[-1]
+    test_src = re.sub(r"(concrete_playback_run\(concrete_vals,\s*)%s\)" % re.escape(last), r"\1%s)" % h["fn"], test_src)
     out["playback_test"] = test_src[:6000]
     # native overlay: same flavour unless the harness asks for replay on the real transport
     rflavour = h.get("replay_flavour", "real" if h["flavour"].startswith("real") else "model")
-    rdir = os.path.join(scratch, "replay-" + h["fn"])
+    rdir = os.path.join(scratch, "replay-" + h["fn"].replace("::", "."))
     files = [os.path.join(VERIF, f) for f in h["files"] if not os.path.basename(f).startswith("GEN:")]
     gen = [os.path.join(scratch, os.path.basename(f)[4:]) for f in h["files"] if os.path.basename(f).startswith("GEN:")]
+    # harness file first (its module receives the playback test)
     overlay.build(rdir, rflavour, files + gen)
     # append the generated test to the harness module (first file is the one holding the harness)
     hfile = os.path.join(rdir, "verif_harness", "verif_" + os.path.basename(h["files"][0]).replace("GEN:", "").partition("__")[2])
     with open(hfile, "a") as fh:
         fh.write("\n" + test_src + "\n")
-    log = os.path.join(logdir, h["fn"] + ".replay.log")
+    log = os.path.join(logdir, h["fn"].replace("::", ".") + ".replay.log")
     cmd = ["cargo", "kani", "playback", "-Z", "concrete-playback"]
     if h.get("features") is not None:
         cmd += ["--no-default-features", "--features", ",".join(h["features"])]
@@ -52,6 +57,11 @@ def confirm(scratch, ovs, target_dir, h, result, mine, logdir):
     out["ran"] = True
     out["replay_log_tail"] = txt[-3000:]
     out["profile"] = "dev (cargo kani playback)"
+    if re.search(r"could not compile|error\[E\d+\]", txt) and "test result:" not in txt:
+        out["ran"] = False
+        out["note"] = "replay crate did not build (see %s)" % log
+        shutil.rmtree(rdir, ignore_errors=True)
+        return out
     failed = re.search(r"test result: FAILED|panicked at", txt) is not None
     same = any(f["desc"][:60] in txt for f in mine)
     if failed and same:
